@@ -19,8 +19,8 @@ ASSUMPTIONS = [
 
 # model field order (ocaml/driver_ext.ml parse_state) -> Debug leaf path, kind T(oken) / L(ist of tokens)
 ORDER = [
-    ("dc_block/ff/window", "L"), ("dc_block/ff/inv_len", "T"), ("dc_block/ff/moving_sum", "T"),
-    ("dc_block/fb/window", "L"), ("dc_block/fb/inv_len", "T"), ("dc_block/fb/moving_sum", "T"),
+    ("dc_block/ff/window", "L"), ("dc_block/ff/inv_len", "T"), ("dc_block/ff/moving_sum", "T"), ("dc_block/ff/since_refresh", "T"),
+    ("dc_block/fb/window", "L"), ("dc_block/fb/inv_len", "T"), ("dc_block/fb/moving_sum", "T"), ("dc_block/fb/since_refresh", "T"),
     ("agc/bandwidth", "T"), ("agc/min_gain", "T"), ("agc/max_gain", "T"), ("agc/locked", "T"), ("agc/gain", "T"),
     ("demod/window_input", "L"), ("demod/coeff_mark", "C"), ("demod/coeff_space", "C"),
     ("symsync/samples_per_ted", "T"), ("symsync/period_min", "T"), ("symsync/period_max", "T"),
@@ -131,7 +131,8 @@ def structural(ctx, cases):
         consts = [str(it.tok(c)) for c in CONSTS]
         sb, sa, sf = serialize(before, it), serialize(after, it), serialize(fresh, it)
         training = [str(i + 1) for i, nm in enumerate(it.names) if nm.startswith("EnabledTraining")]
-        oracle = [sf[10], sf[17], sf[18]]           # initial_gain, alpha, beta as the constructor computed them
+        ix = {p: i for i, (p, _) in enumerate(ORDER)}
+        oracle = [sf[ix["agc/gain"]], sf[ix["symsync/loop_alpha"]], sf[ix["symsync/loop_beta"]]]   # as the constructor computed them
         reqs.append("resetshape " + " ".join(consts + oracle + [",".join(training) or "-"] + sb))
         metas.append((desc, line, sa, sf, before))
     res = vlib.run_lines_parallel(vlib.MODELRUN, reqs) if reqs else []
